@@ -591,6 +591,25 @@ func runC04(c *Ctx) {
 					okPos = false
 				}
 			}
+			// ... and the timerfd is armed only with a positive delay (a zero it_value disarms it: the callback would never run)
+			okArm, nArm := true, 0
+			for _, dc := range deepCallsTo(schedOnce, itSet) {
+				nArm++
+				pos := false
+				for _, l := range guardsOf(dc.Site.Block()) {
+					op, x, y, ok := l.cmp()
+					if !ok {
+						continue
+					}
+					if _, isPrm := stripConv(resolveCell(x)).(*ssa.Parameter); isPrm && ((op == token.GTR && isConstInt(y, 0)) || (op == token.GEQ && isConstInt(y, 1))) {
+						pos = true
+					}
+				}
+				if !pos {
+					okArm = false
+				}
+			}
+			c.check(okArm && nArm > 0, schedOnce, "positive delay armed", schedOnce.Pos(), "the internal timer is set only for a delay > 0", "ScheduleOnce arms the timerfd with a delay that may be zero: timerfd_settime with a zero value disarms the timer, the state says scheduled and the callback never runs")
 			c.check(okPos && nDirect > 0, schedRep, "positive interval", schedRep.Pos(), "the repeating schedule is started only for an interval > 0", "ScheduleRepeating accepts an interval that is not strictly positive: with 0 the wrapper runs at once and re-schedules itself at once, recursing until the stack is exhausted")
 		}
 		// Cancel: stateReady is recorded exactly when Unset succeeded (a failed Unset leaves the timerfd armed: the timer
